@@ -65,6 +65,21 @@ def extended_vocabulary():
     return v
 
 
+_CORE = []
+
+
+def core_vocabulary():
+    """The extended vocabulary with the search grid thinned to attributes {., a}, terms {a, 1} and one
+    regular expression (used for the N<=5 documents and the exhaustive 2-segment product of the thorough tier)."""
+    if not _CORE:
+        for s in VOCAB:
+            if s[0] == "search" and s[4] not in BAD_REGEX:
+                if (s[3] == "=~" and s[4] != "a") or (s[3] != "=~" and s[4] == "b") or s[2] == "b":
+                    continue
+            _CORE.append(s)
+    return _CORE
+
+
 def collector_paths():
     out = []
     groups = []
@@ -204,9 +219,13 @@ def _paths_for(unit, doc_index, seed):
     if mode == "one":
         for s in VOCAB:
             yield [s]
+    elif mode == "one-core":
+        for s in core_vocabulary():
+            yield [s]
     elif mode == "two-all":
-        for a in VOCAB:
-            for b in VOCAB:
+        core = core_vocabulary()
+        for a in core:
+            for b in core:
                 yield [a, b]
     elif mode == "sample":
         rng = random.Random(seed * 1000003 + doc_index * 7919 + unit["len"])
@@ -331,15 +350,17 @@ def plan(tier):
                 "small4": dict(max_nodes=4, max_depth=3, scalars=gen.SCALARS_SMALL),
                 "small3": dict(max_nodes=3, max_depth=3, scalars=gen.SCALARS_SMALL),
                 "full3": dict(max_nodes=3, max_depth=3, scalars=gen.SCALARS_FULL)}
-        spec = [("small5", "one", {}, 40), ("full3", "one", {}, 12), ("small3", "two-all", {}, 1),
-                ("small4", "coll-all", {}, 12), ("full3", "coll-all", {}, 12),
-                ("small4", "sample", {"len": 2, "k": 500}, 8), ("small4", "sample", {"len": 3, "k": 200}, 16)]
-        nrandom = 60000
+        spec = [("small5", "one-core", {}, 40), ("small4", "one", {}, 12), ("full3", "one", {}, 12),
+                ("small3", "two-all", {}, 1), ("small4", "coll-all", {}, 12), ("full3", "coll-all", {}, 12),
+                ("small4", "sample", {"len": 2, "k": 300}, 8), ("small4", "sample", {"len": 3, "k": 100}, 16)]
+        nrandom = 30000
         bounds = {"docs": "all trees N<=5 depth<=3 scalars {null,true,1,a}; all trees N<=3 over the 9-value pool; "
-                          "11 anchor/alias/merge documents; 60000 seeded random trees N<=14",
-                  "paths": "every 1-segment path on every document; every 2-segment path on all N<=3 documents; every "
-                           "collector path on all N<=4 documents; 500 seeded 2-segment and 200 seeded 3-segment paths per "
-                           "N<=4 document; anchor paths; one random 2-5 segment path per random tree"}
+                          "11 anchor/alias/merge documents; 30000 seeded random trees N<=14",
+                  "paths": "every 1-segment path of the extended vocabulary on all N<=4 documents and of the core vocabulary "
+                           "(search attributes {.,a}, terms {a,1}, one regex) on all N<=5 documents; every 2-segment path over "
+                           "the core vocabulary on all N<=3 documents; every collector path on all N<=4 documents; 300 seeded "
+                           "2-segment and 100 seeded 3-segment paths per N<=4 document; anchor paths; one random 2-5 segment "
+                           "path per random tree"}
     elif tier == "mini":
         # smoke / mutation-testing tier (not a reporting tier)
         sets = {"small3": dict(max_nodes=3, max_depth=3, scalars=gen.SCALARS_SMALL)}
